@@ -518,12 +518,12 @@ pub fn property() -> Property {
             "reftz.rs/refcal.rs for Zoned",
         ],
         checks: vec![
-            Box::new(Prop { name: "c10.timestamp", quick: 1_000_000, thorough: 40_000_000, strategy: strat_ts, test: test_timestamp }),
-            Box::new(Prop { name: "c10.time", quick: 600_000, thorough: 20_000_000, strategy: strat_dt, test: test_time }),
-            Box::new(Prop { name: "c10.datetime", quick: 1_000_000, thorough: 40_000_000, strategy: strat_dt, test: test_datetime }),
-            Box::new(Prop { name: "c10.duration", quick: 1_000_000, thorough: 40_000_000, strategy: strat_dur, test: test_duration }),
-            Box::new(Prop { name: "c10.offset", quick: 400_000, thorough: 10_000_000, strategy: strat_dur, test: test_offset }),
-            Box::new(Prop { name: "c10.zoned", quick: 1_000_000, thorough: 30_000_000, strategy: strat_zoned, test: test_zoned }),
+            Box::new(Prop { name: "c10.timestamp", quick: 4_000_000, thorough: 40_000_000, strategy: strat_ts, test: test_timestamp }),
+            Box::new(Prop { name: "c10.time", quick: 2_400_000, thorough: 20_000_000, strategy: strat_dt, test: test_time }),
+            Box::new(Prop { name: "c10.datetime", quick: 4_000_000, thorough: 40_000_000, strategy: strat_dt, test: test_datetime }),
+            Box::new(Prop { name: "c10.duration", quick: 4_000_000, thorough: 40_000_000, strategy: strat_dur, test: test_duration }),
+            Box::new(Prop { name: "c10.offset", quick: 1_600_000, thorough: 10_000_000, strategy: strat_dur, test: test_offset }),
+            Box::new(Prop { name: "c10.zoned", quick: 4_000_000, thorough: 30_000_000, strategy: strat_zoned, test: test_zoned }),
         ],
         floors: |rec| {
             rec.floor("c10.timestamp:tie", "c10.timestamp:cases", 0.05);
